@@ -244,18 +244,12 @@ func c01BatcherLoops(c *Ctx, r *Report, prefix string) {
 			return false
 		}
 		isSend := func(nd *FNode) bool {
-			ss, ok := nd.N.(*ast.SendStmt)
-			if !ok {
-				return false
-			}
-			sends := false
-			ast.Inspect(ss.Value, func(x ast.Node) bool {
-				if id, ok := x.(*ast.Ident); ok && info.Uses[id] == batch {
-					sends = true
+			for _, st := range nodeSends(c, info, nd) {
+				if st.Mentions(info, batch) {
+					return true
 				}
-				return true
-			})
-			return sends
+			}
+			return false
 		}
 		// every assignment to batch is its declaration, append-to-self or a fresh make
 		ast.Inspect(fi.Decl.Body, func(n ast.Node) bool {
